@@ -37,6 +37,9 @@ def base_files():
     cm3 = F.cm3_coded_file(pal, bytes(192 * 160), Chooser(()), False, False)
     ctl = [29] + [30 + 21 * i for i in range(192)]
     files["cm3"] = ([], cm3, {"header": range(0, 29), "control": ctl})
+    cm32 = F.cm3_coded_file(pal, bytes(384 * 160), Chooser(()), True, False)
+    page2 = 29 + 1 + 21 * 192  # offset of the second page's line-count byte (same layout as page one)
+    files["cm3two"] = ([], cm32, {"header": list(range(0, 29)) + [page2], "control": [29, 30, 30 + 21 * 191, page2 + 1, page2 + 1 + 21 * 191]})
     vb = bytes(((i // 80) * 3 + 1) & 255 for i in range(80 * 400))
     vef = F.vef_squashed_file(pal, vb, 0, Chooser(()))
     files["vef"] = ([], vef, {"header": range(0, 18), "control": list(range(18, len(vef), 3)) + list(range(19, len(vef), 3))})
@@ -45,7 +48,7 @@ def base_files():
 
 
 def toolname(k):
-    return {"maxnews": "max", "maxi": "max", "maxnewsi": "max", "mgeraw": "mge", "vefraw": "vef"}.get(k, k)
+    return {"maxnews": "max", "maxi": "max", "maxnewsi": "max", "mgeraw": "mge", "vefraw": "vef", "cm3two": "cm3"}.get(k, k)
 
 
 _FILES = None
